@@ -42,8 +42,24 @@ func genUpdCase(t *rapid.T, withEdit bool) UpdCase {
 		ro.CRLF, ro.Trail = false, false
 	}
 	rf := crsgen.GenRulesFile(t, ro)
+	if rapid.IntRange(0, 15).Draw(t, "hugeline") == 0 {
+		// an earlier rule whose operand makes the line longer than 64 KiB
+		clash := false
+		for _, r := range rf.Rules {
+			if r.ID == "932001" {
+				clash = true
+			}
+		}
+		huge := crsgen.Rule{ID: "932001", Links: []crsgen.Link{{Vars: "ARGS", Op: "@rx", Operand: "(?:" + strings.Repeat("longword|", 8000) + "x)"}}}
+		if !clash {
+			rf.Rules = append([]crsgen.Rule{huge}, rf.Rules...)
+		}
+	}
 	// target: a rule and a chain offset inside its chain, forced to be an @rx / !@rx link
 	ri := rapid.IntRange(0, len(rf.Rules)-1).Draw(t, "target")
+	if rf.Rules[ri].ID == "932001" && len(rf.Rules[ri].Links[0].Operand) > 60000 && len(rf.Rules) > 1 {
+		ri = len(rf.Rules) - 1
+	}
 	k := rapid.IntRange(0, len(rf.Rules[ri].Links)-1).Draw(t, "offset")
 	if !strings.HasSuffix(rf.Rules[ri].Links[k].Op, "@rx") {
 		rf.Rules[ri].Links[k].Op = rapid.SampledFrom([]string{"@rx", "!@rx"}).Draw(t, "forceop")
